@@ -18,7 +18,7 @@ LEVEL_NOTE = ("Trusted: virtual clock (the reference run is reproducible, so 'af
               "encoding used by the recovery-budget model (shared with C08).")
 DESIGN_REF = "§5 C12"
 RULE = "case = (deterministic program, pause tick k); all k of each program are enumerated; distinct = hash of (program, k, state summary); non-trivial = pause state has queued or running work"
-REQUIRED_REACH = ["pause_point", "resumed_run", "result_compare", "state_compare", "retry_continuity_eval", "resumed_in_flight_retry", "fixed_point_eval", "pause_with_collected"]
+REQUIRED_REACH = ["pause_point", "resumed_run", "result_compare", "state_compare", "retry_continuity_eval", "resumed_in_flight_retry", "fixed_point_eval", "fixed_point_with_waiter", "pause_with_collected"]
 ASSUMPTIONS = ["workflows are deterministic and idempotent under re-execution by construction (no ctx.send_event, idempotent state writes)"]
 EXHAUSTIVE = False
 
@@ -66,11 +66,15 @@ def check_pause(case, k, snap, ref, acc):
         acc.hit("pause_with_collected")
     # ---- fixed point of the serialized form
     try:
-        d2 = _roundtrip(case, snap)
-        d3 = _roundtrip(case, d2)
+        st1, d2 = _roundtrip(case, snap)
+        st2, d3 = _roundtrip(case, d2)
         acc.hit("fixed_point_eval")
-        if d2 != d3:
-            acc.violation({"mech": "serialized_form_not_a_fixed_point"}, f"from_dict/to_dict twice differ after tick {k}: {_first_diff(d2, d3)}", wit)
+        n1, n2 = oracles.norm_state(st1), oracles.norm_state(st2)
+        if any(w["waiters"] for w in n1["workers"].values()):
+            acc.hit("fixed_point_with_waiter")
+        if d2 != d3 or n1 != n2:
+            acc.violation({"mech": "serialized_form_not_a_fixed_point"},
+                          f"deserialize / re-serialize / deserialize at pause {k} changes the run state: {oracles.diff_state(n1, n2)[:2] or _first_diff(d2, d3)}", wit)
     except Exception as e:  # noqa: BLE001
         acc.violation({"mech": "from_dict_roundtrip_raises", "exc": type(e).__name__}, f"Context.from_dict(...).to_dict() after tick {k} raised {e!r}", wit)
         return
@@ -142,7 +146,7 @@ def _roundtrip(case, d):
     st = BrokerState.from_serialized(sc, _instance(case), ser)
     out = st.to_serialized(ser)
     out.state = sc.state
-    return json.loads(json.dumps(out.model_dump(mode="python")))
+    return st, json.loads(json.dumps(out.model_dump(mode="python")))
 
 
 def _instance(case):
@@ -181,15 +185,52 @@ def run_one(case, acc, only_k=None):
         check_pause(case, k, ent, ref, acc)
 
 
+def run_waiter_fixed_point(seed, acc):
+    """Serialized-form stability on snapshots that hold wait_for_event waiters (requirements are not serialized: the
+    'had requirements' flag must survive re-serialization)."""
+    from vf import engine_run, gen, oracles
+
+    rnd = random.Random(seed)
+    spec = gen.gen_wait(rnd)
+    spec["sched_seed"] = seed
+    case = {"seed": seed, "family": "wait", "spec": spec}
+    tr0, snaps = engine_run.run_with_snapshots(spec)
+    if tr0.errors:
+        acc.inconclusive.append(f"wait-family reference failed seed={seed}: {tr0.errors[:1]}")
+        return
+    for ent in snaps:
+        if ent["snap"] is None or not any(w["collected_waiters"] for w in ent["snap"]["workers"].values()):
+            continue
+        wit = {"case": {**case, "k": ent["k"], "mode": "waiter_fixed_point"}, "phase": "resumed"}
+        try:
+            st1, d2 = _roundtrip(case, ent["snap"])
+            st2, d3 = _roundtrip(case, d2)
+        except Exception as e:  # noqa: BLE001
+            acc.violation({"mech": "from_dict_roundtrip_raises", "exc": type(e).__name__}, f"round trip at pause {ent['k']} raised {e!r}", wit)
+            continue
+        acc.case()
+        acc.hit("fixed_point_eval")
+        acc.hit("fixed_point_with_waiter")
+        n1, n2 = oracles.norm_state(st1), oracles.norm_state(st2)
+        if d2 != d3 or n1 != n2:
+            acc.violation({"mech": "serialized_form_not_a_fixed_point"},
+                          f"deserialize / re-serialize / deserialize at pause {ent['k']} changes the run state: {oracles.diff_state(n1, n2)[:2] or _first_diff(d2, d3)}", wit)
+
+
 def run_shard(shard):
     acc = Acc()
     for i in range(shard["n"]):
         run_one(gen_case(shard["seed"] + i), acc)
+        for j in range(4):
+            run_waiter_fixed_point(shard["seed"] + 5000 + i * 10 + j, acc)
     return acc.to_dict()
 
 
 def replay(rp):
     acc = Acc()
     c = rp["case"]["case"]
+    if c.get("mode") == "waiter_fixed_point":
+        run_waiter_fixed_point(c["seed"], acc)
+        return acc.to_dict()
     run_one({k: v for k, v in c.items() if k != "k"}, acc, only_k=c.get("k"))
     return acc.to_dict()
